@@ -229,7 +229,7 @@ def run(chk):
     def pname_cases():
         for kind in ('object', 'observable', 'extension'):
             for pname, ok in (('x_ok_name', True), ('abc', True), ('a' * 250, True), ('a b', False), ('aB', False), ('x-hyphen', False), ('ab', False), ('xé_name', False), ('x_name\n', False),
-                              ('a' * 251, False), ('_lead', None), ('7bad', None), ('A_upper_first', False), (' lead', False), ('', False)):
+                              ('a' * 251, False), ('_lead', None), ('7bad', None), ('A_upper_first', False), (' lead', False), ('', False), ('\u00fcber_prop', False), ('\u03b1_prop', False), ('Xprop', False)):
                 yield (kind, pname, ok)
     m = [0]
 
@@ -257,4 +257,4 @@ def run(chk):
             if pname[:1].isascii() and pname[:1].isalpha() and pname[:1].islower():
                 return ('property-name#only the first character of a custom property name is checked', f'2.1 {kind}: property name {pname!r} breaks the naming rule (lower-case letters, digits, underscore; 3-250 characters) but was accepted at registration', {'kind': kind, 'name': pname})
             return ('property-name#name not starting with a lower-case letter accepted', f'2.1 {kind}: property name {pname!r} was accepted at registration', {'kind': kind, 'name': pname})
-    chk.bounded('property names at registration (2.1)', list(pname_cases()), check_pname, classify=lambda c: c[:2], bound='3 kinds x 15 property names (valid, boundary lengths, illegal characters, case, whitespace, empty)')
+    chk.bounded('property names at registration (2.1)', list(pname_cases()), check_pname, classify=lambda c: c[:2], bound='3 kinds x 18 property names (valid, boundary lengths, illegal characters, case, whitespace, empty)')
